@@ -26,6 +26,7 @@ Ev ==
   \/ /\ E.op = "request" /\ Request(E.t)
      /\ reply'.status = E.status /\ reply'.asked = E.asked /\ (E.status = "ok" => reply'.ver = E.ver)
   \/ E.op = "expire" /\ ExpireAll
+  \/ E.op = "remove" /\ Remove(E.t)
   \/ E.op = "fail" /\ Fail
   \/ E.op = "recover" /\ Recover
 
